@@ -13,7 +13,7 @@ VARIABLES pol, del, paused, fresh, rep, hl, tmpl, pods, revs, lvl
 vars == <<pol, del, paused, fresh, rep, hl, tmpl, pods, revs, lvl>>
 
 Owners == {"self", "stale", "other", "none"}
-Shapes == {"foo-%", "foo-%-x", "x-foo-%", "foox-%"}
+Shapes == {"foo-%", "foo-%-x", "x-foo-%", "foox-%", "foo-db-%"}
 Absent == [present |-> FALSE]
 PodChoices == {Absent} \cup [present : {TRUE}, shape : Shapes, owner : Owners, match : BOOLEAN, term : BOOLEAN]
 RevChoices == {Absent} \cup [present : {TRUE}, owner : Owners, labels : {"sel", "marker", "both"}]
@@ -21,6 +21,7 @@ RevChoices == {Absent} \cup [present : {TRUE}, owner : Owners, labels : {"sel", 
 PodNameOf(o, sh) == CASE sh = "foo-%"   -> "foo-" \o ToString(o)
                       [] sh = "foo-%-x" -> "foo-" \o ToString(o) \o "-x"
                       [] sh = "x-foo-%" -> "x-foo-" \o ToString(o)
+                      [] sh = "foo-db-%" -> "foo-db-" \o ToString(o)
                       [] OTHER          -> "foox-" \o ToString(o)
 MkPod(o, c) == [new |-> FALSE, name |-> PodNameOf(o, c.shape), ord |-> IF c.shape = "foo-%-x" THEN -1 ELSE o,
                 member |-> c.shape = "foo-%", match |-> c.match, owner |-> c.owner, phase |-> "Running", ready |-> TRUE,
